@@ -319,7 +319,13 @@ def _construct(rng, cls, n, target):
             kk = (min(a, b), max(a, b)) if und else (a, b)
             if kk not in target:
                 ops.append(add(*orient(a, b), junkval()))
-                if rng.random() < 0.5: ops.append('R %d %d' % orient(a, b))
+                how = rng.random()
+                if multi and how < 0.25: ops.append(rng.choice(['MS %d %d 0', 'MR %d %d 7']) % orient(a, b))      # the other ways a multigraph drops a pair
+                elif a == b and how < 0.5:
+                    ops.append('SL')                                   # removeSelfLoops; the target's own loops are put back
+                    for k2 in sorted(done):
+                        if k2[0] == k2[1]: ops.append(add(*k2, target[k2]))
+                elif how < 0.5: ops.append('R %d %d' % orient(a, b))
                 else:
                     # removeVertexFromEdgeList on either endpoint (lower or higher), then whatever it destroyed of the target is put back
                     v = rng.choice([a, b]); ops.append('V %d' % v)
